@@ -361,7 +361,7 @@ theorem reachable_cons (w : World) (key : List Name) (n : Name) (ns : List Name)
     w.reachable key (n :: ns) = true ↔
       (∃ mode, w.kindAt key = some (NodeKind.dir mode) ∧ mode / 64 % 2 = 1)
         ∧ (w.kindAt (key ++ [n])).isSome = true ∧ w.reachable (key ++ [n]) ns = true := by
-  simp only [World.reachable, World.searchable, ownerSearch, Bool.and_eq_true]
+  simp only [World.reachable, World.searchable, ownerSearch_bit, Bool.and_eq_true]
   constructor
   · rintro ⟨⟨h1, h2⟩, h3⟩
     refine ⟨?_, h2, h3⟩
@@ -388,7 +388,7 @@ theorem world_exist_iff_searchable (w : World) (hroot : w.isDir [] = true) (name
     rw [absPath_rel _ (joinPath_head names hne h)]
     exact get_plain w hroot names hne h
   simp only [fsOfWorld, joinPath_nul names h, Bool.not_false, Bool.true_and]
-  rw [show (8 : Nat) = 7 + 1 from rfl, follow_succ, hg]
+  rw [show YashModel.Generated.GlobTables.symloopMax = 7 + 1 from rfl, follow_succ, hg]
   by_cases hr : w.reachable [] (['t'] :: names) = true
   · rw [hr]
     show (match w.kindAt (['t'] :: names) with
